@@ -69,6 +69,17 @@ CHECKS = {
         "invariant monitor over exhaustively enumerated operation histories on the real objects",
         "4/C12",
     ),
+    "C17": (
+        "exploration",
+        "The selection matrix (every pattern-derived, multi-pattern, case-changed and extension-less base name x 4 operations x "
+        "fmt in {None, each of the 25 modules, unknown} x existing/missing file x absolute/sub-directory/relative path) is enumerated "
+        "exhaustively through the public API with recorders in place of the format functions and an audit hook logging every "
+        "file-system event; expected module set computed by an independent matcher. Declared names vs the attribute set "
+        "(exhaustive), guaranteed lists vs every loadable corpus file, required lists via one dump per (format, attribute) with "
+        "the audit hook proving no open of the target precedes the PrepareDumpError.",
+        "API-boundary recorders + sys.addaudithook event log vs independent expectation",
+        "4/C17",
+    ),
 }
 
 NOT_YET = "check not built yet (work in progress; see DESIGN.md section 5b)"
